@@ -33,6 +33,16 @@ func scriptRT(s *exec.State, v abs.V) {
 	s.Marshal(1)
 	s.Size(1)
 	s.Header(1)
+	s.LenAcc(1)
+	if kind == "REMB" {
+		n := len(s.Buf[1])
+		if n == 0 {
+			n = 20
+		}
+		s.MarshalTo(1, n)
+		s.MarshalTo(1, n+5)
+		s.MarshalTo(1, n-1)
+	}
 	s.Dest(1)
 	stringOf(s, 1, 1)
 	if kind != "LIST" {
